@@ -35,3 +35,27 @@ let run () =
                                                pairs r.Model.r_headers; pairs r.Model.r_cookies; body r.Model.r_body] in
                Printf.printf "%s %s ok:%s\n" id drv (hex_of_str (explode canon)))))
     | _ -> failwith "request line")
+
+(* auth mode: "<id> <cfg> <spec>" -> the credentials a from_env client adds to every request, per Sem/Request.v auth_plan_of *)
+let cfg_of = function
+  | L [A "cfg"; n; L ds; ex] -> { Model.c_name = atom_str n; c_derives = List.map atom_str ds; c_examples = Specio.b ex }
+  | _ -> failwith "cfg"
+
+let run_auth () =
+  iter_lines (fun line ->
+    match Sexp.parse ("(" ^ line ^ ")") with
+    | L [A id; c; sp] ->
+      (match Model.extract_spec fuel (Specio.spec sp) with
+       | Model.Err e -> Printf.printf "%s err:%s\n" id (err_name e)
+       | Model.Ok h ->
+         let cfg = Model.cli_config (cfg_of c) in
+         let place = function
+           | Model.PlHeader k -> "header:" ^ hex_of_str k | Model.PlQuery k -> "query:" ^ hex_of_str k
+           | Model.PlCookie k -> "cookie:" ^ hex_of_str k | Model.PlBearer -> "bearer:" | Model.PlBasic -> "basic:" | Model.PlToken -> "token:" in
+         let cred = function Model.CPlain e -> "plain:" ^ implode e | Model.CBase64 e -> "base64:" ^ implode e in
+         (match Model.auth_plan_of h cfg with
+          | Model.APNone -> Printf.printf "%s ok:none\n" id
+          | Model.APAnonymous -> Printf.printf "%s ok:anonymous\n" id
+          | Model.APOAuth2 (a, r) -> Printf.printf "%s ok:oauth2|%s|%s\n" id (implode a) (implode r)
+          | Model.APFields l -> Printf.printf "%s ok:fields|%s\n" id (String.concat ";" (List.map (fun (p, c) -> place p ^ "=" ^ cred c) l))))
+    | _ -> failwith "auth line")
